@@ -44,6 +44,8 @@ type stream struct {
 	closedErr  int32
 	appClosed  bool
 	writeSeq   int
+	points     uint64 // data points the application wrote successfully
+	evAtClose  int32 // closed notifications delivered before the connection's Close (-1: not yet closed)
 }
 
 type req struct {
@@ -76,6 +78,8 @@ type impl struct {
 	incAtClose int
 	released int // dial attempts released from the gate so far (incl. the initial connect)
 	ackAttempts int // attempts the events so far account for (1 + outages + elapsed back-offs): an attempt that starts early because the harness was slow is not shown before its event
+	tokenFlagged bool
+	pendingViolation string
 	dialsAtClose int
 	tokensAtClose int32
 }
@@ -193,7 +197,7 @@ func (i *impl) openStream(st *stream) {
 		if st.sid%2 == 0 {
 			qos = message.QoSUnreliable
 		}
-		u, err := i.conn.OpenUpstream(ctx, "sess"+strconv.Itoa(st.sid), iscp.WithUpstreamQoS(qos), iscp.WithUpstreamFlushPolicyImmediately(),
+		u, err := i.conn.OpenUpstream(ctx, "sess"+strconv.Itoa(st.sid), iscp.WithUpstreamQoS(qos), iscp.WithUpstreamFlushPolicyIntervalOnly(time.Hour),
 			iscp.WithUpstreamResumedEventHandler(iscp.UpstreamResumedEventHandlerFunc(func(*iscp.UpstreamResumedEvent) {
 				atomic.StoreInt32(&st.attached, int32(i.curInc()))
 				atomic.AddInt32(&st.resumedEv, 1)
@@ -308,8 +312,15 @@ func (i *impl) curIncPtr() *broker.Inc {
 	return i.b.Incs[len(i.b.Incs)-1]
 }
 
+func (i *impl) closedEvOf(st *stream) int32 {
+	if i.closed && st.evAtClose >= 0 {
+		return st.evAtClose // what happens to a stream after the connection's Close is judged by the oracles, not shown
+	}
+	return atomic.LoadInt32(&st.closedEv)
+}
+
 func (i *impl) streamState(st *stream) string {
-	if atomic.LoadInt32(&st.closedEv) > 0 {
+	if i.closedEvOf(st) > 0 {
 		if atomic.LoadInt32(&st.closedErr) > 0 && !st.appClosed {
 			return "closederr"
 		}
@@ -330,7 +341,7 @@ func (i *impl) summary() string {
 		if !st.opened {
 			continue
 		}
-		ss = append(ss, fmt.Sprintf("%d:%s:%s:%d:%d", st.sid, st.dir, i.streamState(st), atomic.LoadInt32(&st.resumedEv), atomic.LoadInt32(&st.closedEv)))
+		ss = append(ss, fmt.Sprintf("%d:%s:%s:%d:%d", st.sid, st.dir, i.streamState(st), atomic.LoadInt32(&st.resumedEv), i.closedEvOf(st)))
 	}
 	popen := 0
 	for _, st := range i.streams {
@@ -375,6 +386,10 @@ func (i *impl) summary() string {
 	dials := i.b.Dials
 	i.b.Unlock()
 	tokens := int(atomic.LoadInt32(&i.tokens))
+	if tokens < dials && !i.tokenFlagged {
+		i.tokenFlagged = true
+		i.pendingViolation = fmt.Sprintf("%d connect attempts were made but the token source was asked only %d times: an attempt reused an earlier token", dials, tokens)
+	}
 	if !i.closed {
 		if dials > i.ackAttempts {
 			dials = i.ackAttempts
@@ -451,7 +466,7 @@ func (i *impl) exec(h *lp.H, op string) string {
 	}
 	switch w[0] {
 	case "open":
-		st := &stream{sid: len(i.streams) + 1, dir: w[1][:1]}
+		st := &stream{sid: len(i.streams) + 1, dir: w[1][:1], evAtClose: -1}
 		i.streams = append(i.streams, st)
 		switch i.status() {
 		case "c":
@@ -644,12 +659,54 @@ func (i *impl) exec(h *lp.H, op string) string {
 		}
 		t0 := time.Now()
 		var err error
+		buffered := ""
 		if st.up != nil {
+			if wasLive && i.streamState(st) == "open" {
+				// a point that is still in the send buffer when the stream is closed must go out before the close request
+				buffered = fmt.Sprintf("cl%d", sid)
+				if werr := st.up.WriteDataPoints(ctx, &message.DataID{Name: buffered, Type: "t"}, &message.DataPoint{Payload: []byte{7}}); werr != nil {
+					buffered = ""
+				} else {
+					st.points++
+				}
+			}
 			err = st.up.Close(ctx)
 		} else {
 			err = st.down.Close(ctx)
 		}
 		cancel()
+		if buffered != "" && err == nil {
+			seenChunk, order, total := false, "no-close-request", uint64(0)
+			for _, r := range i.b.LogFrom(0) {
+				switch m := r.Msg.(type) {
+				case *message.UpstreamChunk:
+					for _, d := range m.DataIDs {
+						if d.Name == buffered {
+							seenChunk = true
+						}
+					}
+					for _, g := range m.StreamChunk.DataPointGroups {
+						if d, ok := g.DataIDOrAlias.(*message.DataID); ok && d.Name == buffered {
+							seenChunk = true
+						}
+					}
+				case *message.UpstreamCloseRequest:
+					if m.StreamID == st.id {
+						total = m.TotalDataPoints
+						if seenChunk {
+							order = "chunk-before-close"
+						} else {
+							order = "close-without-chunk"
+						}
+					}
+				}
+			}
+			if order != "chunk-before-close" {
+				h.Violate(fmt.Sprintf("stream %d: a point written before Close did not reach the broker before the close request (%s)", sid, order))
+			} else if total != st.points {
+				h.Violate(fmt.Sprintf("stream %d: %d points were written, the close request reports %d", sid, st.points, total))
+			}
+		}
 		if took := time.Since(t0); took > 1200*time.Millisecond {
 			h.Violate(fmt.Sprintf("stream %d: Close(ctx=400ms) returned after %v", sid, took))
 		}
@@ -711,8 +768,57 @@ func (i *impl) exec(h *lp.H, op string) string {
 				}()
 			}
 		}
-		time.Sleep(2 * time.Millisecond)
+		if i.status() == "c" {
+			// a call that has been sent and waits for its ack (the broker withholds it)
+			b := blocked{"SendCall waiting for its ack at Close", make(chan error, 1)}
+			bl = append(bl, b)
+			i.mu.Lock()
+			i.holdMeta = "blk"
+			i.mu.Unlock()
+			go func() {
+				c, cancel := context.WithTimeout(context.Background(), 5*time.Second)
+				defer cancel()
+				_, err := i.conn.SendCall(c, &iscp.UpstreamCall{DestinationNodeID: "dst", Name: "blk", Type: "t"})
+				b.done <- err
+			}()
+			// a stream Close that waits for a withheld chunk ack, overlapping the connection's Close
+			for _, st := range i.streams {
+				if st.opened && st.up != nil && i.streamState(st) == "open" {
+					i.b.Lock()
+					i.b.HoldAcks = true
+					i.b.Unlock()
+					c, cancel := context.WithTimeout(context.Background(), time.Second)
+					err := st.up.WriteDataPoints(c, &message.DataID{Name: "last", Type: "t"}, &message.DataPoint{Payload: []byte{9}})
+					if err == nil {
+						err = st.up.Flush(c)
+					}
+					cancel()
+					if err == nil {
+						b := blocked{fmt.Sprintf("Upstream.Close of stream %d (waiting for a withheld ack) overlapping the connection's Close", st.sid), make(chan error, 1)}
+						bl = append(bl, b)
+						up := st.up
+						go func() {
+							c, cancel := context.WithTimeout(context.Background(), 5*time.Second)
+							defer cancel()
+							up.Close(c)
+							b.done <- ierrors.ErrStreamClosed // any return value is fine: what counts is that it returns
+						}()
+					}
+					break
+				}
+			}
+		}
+		for _, st := range i.streams {
+			st.evAtClose = atomic.LoadInt32(&st.closedEv)
+		}
+		time.Sleep(5 * time.Millisecond)
 		defer func() {
+			i.b.Lock()
+			i.b.HoldAcks = false
+			i.b.Unlock()
+			i.mu.Lock()
+			i.holdMeta = ""
+			i.mu.Unlock()
 			for _, b := range bl {
 				select {
 				case err := <-b.done:
@@ -776,7 +882,12 @@ func (i *impl) exec(h *lp.H, op string) string {
 	default:
 		return "bad-op"
 	}
-	return i.summary()
+	out := i.summary()
+	if i.pendingViolation != "" {
+		h.Violate(i.pendingViolation)
+		i.pendingViolation = ""
+	}
+	return out
 }
 
 func (i *impl) afterCloseErr(h *lp.H, what string, err error, took time.Duration) {
@@ -810,6 +921,10 @@ func (i *impl) probe(h *lp.H) {
 				name := fmt.Sprintf("p%d-%d", st.sid, st.writeSeq)
 				st.writeSeq++
 				err := st.up.WriteDataPoints(ctx, &message.DataID{Name: name, Type: "t"}, &message.DataPoint{ElapsedTime: time.Duration(st.writeSeq), Payload: []byte{1}})
+				if err == nil {
+					st.points++
+					err = st.up.Flush(ctx)
+				}
 				cancel()
 				arrived := err == nil && i.b.WaitFor(func() bool {
 					for k := len(i.b.Log) - 1; k >= 0; k-- {
